@@ -81,16 +81,43 @@ class BuildError(Exception):
 GEN_ERRORS = {}
 
 
+HARNESS_BINS = ['vharness', 'vh_dir', 'vh_report', 'vh_digest', 'vnames']
+HARNESS_FAILED = {}
+
+
 def build_harness(release=False):
-    """cargo build of the harness crate against /repo's current working tree"""
+    """cargo build of the harness crate against /repo's current working tree.  If the crate as a whole does not
+    build (a public signature changed), the binaries are built one by one: a check then fails only if a binary
+    IT needs cannot be built (need_bin), not because an unrelated binary broke."""
     with Lock('cargo'):
         hdir = os.path.join(VERIF, 'harness')
         shutil.copyfile(os.path.join(REPO, 'Cargo.lock'), os.path.join(hdir, 'Cargo.lock'))
+        prof = 'release' if release else 'debug'
         cmd = ['cargo', 'build', '--offline'] + (['--release'] if release else [])
         rc, out = sh(cmd, cwd=hdir, timeout=1800)
         if rc != 0:
-            raise BuildError('harness build failed:\n' + out[-4000:])
-        return os.path.join(TARGET, 'release' if release else 'debug', 'vharness')
+            for b in HARNESS_BINS:
+                rc1, out1 = sh(cmd + ['--bin', b], cwd=hdir, timeout=1800)
+                if rc1 != 0:
+                    HARNESS_FAILED[(b, prof)] = out1[-3000:]
+                    try:
+                        os.remove(os.path.join(TARGET, prof, b))      # no stale binary of an earlier build
+                    except OSError:
+                        pass
+            if ('vharness', prof) in HARNESS_FAILED:
+                raise BuildError('harness build failed:\n' + HARNESS_FAILED[('vharness', prof)])
+        return os.path.join(TARGET, prof, 'vharness')
+
+
+def need_bin(name, release=False):
+    """path of a harness binary, or BuildError with the compiler output when it could not be built"""
+    prof = 'release' if release else 'debug'
+    if (name, prof) in HARNESS_FAILED:
+        raise BuildError('harness binary %s does not build against the current tree:\n%s' % (name, HARNESS_FAILED[(name, prof)]))
+    p = os.path.join(TARGET, prof, name)
+    if not os.path.exists(p):
+        raise BuildError('harness binary %s is missing' % name)
+    return p
 
 
 def build_solstat_bin():
